@@ -244,7 +244,7 @@ const NDyn = 760
 func dynType(i int) reflect.Type {
 	nf := 1 + i%3
 	if i%32 == 7 {
-		nf = 40 // a wide struct now and then
+		nf = []int{40, 65, 130, 260}[(i/32)%4] // a wide struct now and then: more fields than a scratch table of 32, 64, 128 or 256 entries holds (seeded C08w)
 	}
 	fields := make([]reflect.StructField, 0, nf)
 	for f := 0; f < nf; f++ {
@@ -325,6 +325,10 @@ var ruleSets = []map[string]string{
 	{"Name": "required,,le=2", "Code": "required,,le=2"},
 	// 8: a literal RM{"Name,Age": ..., "Code, Phone": ..., "Count": ...} (see mkRule)
 	{"Count": "ge=7"},
+	// 9, 10: overrides that name time.Time fields (Order.At, Order.Paid; the library skips such fields today, so alone these
+	// calls behave as if the entries were not there) - each names a different one (seeded C11w validated them from spare capacity of the cached slice)
+	{"At": "required", "ID": "ge=9"},
+	{"Paid": "required", "Nick": "required"},
 }
 
 // multiSetRules is the slice handed (spread) to RM.Set for rule set 7; the caller keeps it.
@@ -343,7 +347,7 @@ func mkRule(id int) valid.RM {
 	}
 	rm := valid.NewRule()
 	// fixed key order: RM.Set has no order dependence, this is for determinism of allocation only
-	for _, k := range []string{"Name", "Age", "Code", "Phone", "Count", "AppName", "Amount", "Note", "OrderNo", "TradeNo"} {
+	for _, k := range []string{"Name", "Age", "Code", "Phone", "Count", "AppName", "Amount", "Note", "OrderNo", "TradeNo", "At", "Paid", "ID", "Nick"} {
 		if r, ok := ruleSets[id][k]; ok {
 			rm.Set(k, r)
 		}
